@@ -656,3 +656,109 @@ pub proof fn lemma_locale_roundtrip_views(idv: LidView, tv: TView, uv: UView, xv
     assert(ts.skip(lid_end(ts)) =~= e);
     lemma_ext_roundtrip(tv, kt, uv, ku, xv);
 }
+
+// ---- every (finite) keyword / tfield map can list its keys in strictly increasing order ------------------------------------
+pub open spec fn insert_sorted(keys: Seq<tinystr::TinyAsciiStr<4>>, k: tinystr::TinyAsciiStr<4>) -> Seq<tinystr::TinyAsciiStr<4>>
+    decreases keys.len()
+{
+    if keys.len() == 0 { seq![k] }
+    else if lex_lt(text(k), text(keys[0])) { seq![k] + keys }
+    else { seq![keys[0]] + insert_sorted(keys.skip(1), k) }
+}
+pub proof fn lemma_insert_sorted(keys: Seq<tinystr::TinyAsciiStr<4>>, k: tinystr::TinyAsciiStr<4>)
+    requires strictly_sorted(texts::<4>(keys)), !keys.contains(k),
+    ensures
+        strictly_sorted(texts::<4>(insert_sorted(keys, k))),
+        forall|x: tinystr::TinyAsciiStr<4>| insert_sorted(keys, k).contains(x) <==> (keys.contains(x) || x == k),
+        insert_sorted(keys, k).len() == keys.len() + 1,
+        keys.len() > 0 ==> (insert_sorted(keys, k)[0] == keys[0] || insert_sorted(keys, k)[0] == k),
+    decreases keys.len(),
+{
+    broadcast use axiom_text_injective;
+    let r = insert_sorted(keys, k);
+    if keys.len() == 0 {
+        assert(texts::<4>(r) =~= seq![text(k)]);
+        assert forall|x: tinystr::TinyAsciiStr<4>| r.contains(x) <==> (keys.contains(x) || x == k) by { if x == k { assert(r[0] == k); } }
+    } else if lex_lt(text(k), text(keys[0])) {
+        let tr = texts::<4>(r);
+        assert forall|i: int, j: int| 0 <= i < j < tr.len() implies lex_lt(#[trigger] tr[i], #[trigger] tr[j]) by {
+            if i == 0 {
+                assert(tr[0] == text(k));
+                assert(tr[j] == texts::<4>(keys)[j - 1]);
+                if j - 1 > 0 { assert(lex_lt(texts::<4>(keys)[0], texts::<4>(keys)[j - 1])); lemma_lex_lt_trans(text(k), text(keys[0]), tr[j]); }
+                else { assert(tr[j] == text(keys[0])); }
+            } else {
+                assert(tr[i] == texts::<4>(keys)[i - 1] && tr[j] == texts::<4>(keys)[j - 1]);
+            }
+        }
+        assert forall|x: tinystr::TinyAsciiStr<4>| r.contains(x) <==> (keys.contains(x) || x == k) by {
+            if r.contains(x) { let i = choose|i: int| 0 <= i < r.len() && r[i] == x; if i > 0 { assert(keys[i - 1] == x); } }
+            if keys.contains(x) { let i = choose|i: int| 0 <= i < keys.len() && keys[i] == x; assert(r[i + 1] == x); }
+            if x == k { assert(r[0] == k); }
+        }
+    } else {
+        let rest = keys.skip(1);
+        assert(texts::<4>(rest) =~= texts::<4>(keys).skip(1));
+        assert forall|i: int, j: int| 0 <= i < j < texts::<4>(rest).len() implies lex_lt(#[trigger] texts::<4>(rest)[i], #[trigger] texts::<4>(rest)[j]) by {
+            assert(texts::<4>(rest)[i] == texts::<4>(keys)[i + 1] && texts::<4>(rest)[j] == texts::<4>(keys)[j + 1]);
+        }
+        assert(!rest.contains(k)) by { if rest.contains(k) { let i = choose|i: int| 0 <= i < rest.len() && rest[i] == k; assert(keys[i + 1] == k); } }
+        lemma_insert_sorted(rest, k);
+        let r2 = insert_sorted(rest, k);
+        assert(r =~= seq![keys[0]] + r2);
+        // keys[0] < k (k != keys[0], not k < keys[0], total order) and keys[0] < every element of rest
+        assert(keys[0] != k) by { assert(keys.contains(keys[0])); }
+        assert(text(keys[0]) != text(k));
+        lemma_lex_le_total(text(k), text(keys[0]));
+        assert(lex_lt(text(keys[0]), text(k)));
+        let tr = texts::<4>(r);
+        assert forall|i: int, j: int| 0 <= i < j < tr.len() implies lex_lt(#[trigger] tr[i], #[trigger] tr[j]) by {
+            if i == 0 {
+                assert(tr[0] == text(keys[0]));
+                let y = r2[j - 1];
+                assert(tr[j] == text(y));
+                assert(r2.contains(y));
+                if y != k {
+                    assert(rest.contains(y));
+                    let q = choose|q: int| 0 <= q < rest.len() && rest[q] == y;
+                    assert(texts::<4>(keys)[q + 1] == text(y));
+                    assert(lex_lt(texts::<4>(keys)[0], texts::<4>(keys)[q + 1]));
+                }
+            } else {
+                assert(tr[i] == texts::<4>(r2)[i - 1] && tr[j] == texts::<4>(r2)[j - 1]);
+            }
+        }
+        assert forall|x: tinystr::TinyAsciiStr<4>| r.contains(x) <==> (keys.contains(x) || x == k) by {
+            if r.contains(x) { let i = choose|i: int| 0 <= i < r.len() && r[i] == x; if i > 0 { assert(r2[i - 1] == x); assert(r2.contains(x)); if x != k { assert(rest.contains(x)); let q = choose|q: int| 0 <= q < rest.len() && rest[q] == x; assert(keys[q + 1] == x); } } else { assert(keys[0] == x); } }
+            if keys.contains(x) { let i = choose|i: int| 0 <= i < keys.len() && keys[i] == x; if i == 0 { assert(r[0] == x); } else { assert(rest[i - 1] == x); assert(rest.contains(x)); assert(r2.contains(x)); let q = choose|q: int| 0 <= q < r2.len() && r2[q] == x; assert(r[q + 1] == x); } }
+            if x == k { assert(r2.contains(k)); let q = choose|q: int| 0 <= q < r2.len() && r2[q] == k; assert(r[q + 1] == k); }
+        }
+    }
+}
+pub proof fn lemma_keys_listable(m: KvMap)
+    ensures is_sorted_keys(sorted_keys(m), m),
+    decreases m.dom().len(),
+{
+    if m.dom().len() == 0 {
+        let keys = Seq::<tinystr::TinyAsciiStr<4>>::empty();
+        assert(texts::<4>(keys) =~= Seq::<Seq<u8>>::empty());
+        assert forall|k: tinystr::TinyAsciiStr<4>| keys.contains(k) <==> m.contains_key(k) by {
+            if m.contains_key(k) { assert(m.dom().contains(k)); assert(m.dom().len() > 0); }
+        }
+        assert(is_sorted_keys(keys, m));
+    } else {
+        let k = m.dom().choose();
+        assert(m.dom().contains(k));
+        let m1 = m.remove(k);
+        assert(m1.dom() =~= m.dom().remove(k));
+        lemma_keys_listable(m1);
+        let k1 = sorted_keys(m1);
+        assert(!k1.contains(k));
+        lemma_insert_sorted(k1, k);
+        let keys = insert_sorted(k1, k);
+        assert forall|x: tinystr::TinyAsciiStr<4>| keys.contains(x) <==> m.contains_key(x) by {
+            assert(k1.contains(x) <==> m1.contains_key(x));
+        }
+        assert(is_sorted_keys(keys, m));
+    }
+}
